@@ -58,6 +58,9 @@ func c18ShutdownRun(c string) string {
 	if s.addr[upKind] == "" {
 		return "bad-case"
 	}
+	if c18UpstreamCrashes(upKind) {
+		return "panic"
+	}
 	s.mu.Lock()
 	s.seq++
 	nbase := s.seq * 100
